@@ -60,3 +60,8 @@ def run(ctx):
     if traces:
         ctx.oblige("coverage", f"cidmig: in at least 6 runs the server returns to a known path whose peer id was retired meanwhile "
                    f"(update_active_path consumes a fresh id: {hit} of {len(traces)})", hit >= 6, f"{hit} runs")
+    # ---- the same rule on the scenarios of the single-connection families (traces are shared with C13_e2e) -------
+    e2e_props.run_family(ctx, "cid", [e2e_c13mig.o_c13_dcid], 36, 200, nontrivial=e2e_c13.nontrivial,
+                         name="T:cid: o_c13_dcid (no packet addressed to a peer id below a processed Retire Prior To) on the lifetime / rotation / rebinding scenarios")
+    e2e_props.run_family(ctx, "mixed", [e2e_c13mig.o_c13_dcid], 12, 100, nontrivial=e2e_c13.nontrivial,
+                         name="T:mixed: o_c13_dcid on the mixed family")
